@@ -320,8 +320,22 @@ func findOrCreateMatchFileIfOverlaps(order *list.List, e1, e2 *HostsMapEntry) {
 		if el1 == nil {
 			el1 = findOrCreateMatchFile(order, e1)
 		}
-		e2._upper = el1
+		// e2 should be placed after all the entries it overlaps,
+		// so only move its starting point towards the end of the list
+		if e2._upper == nil || isAfter(el1, e2._upper) {
+			e2._upper = el1
+		}
 	}
+}
+
+// isAfter returns true if el1 is placed after el2 in their list
+func isAfter(el1, el2 *list.Element) bool {
+	for e := el2.Next(); e != nil; e = e.Next() {
+		if e == el1 {
+			return true
+		}
+	}
+	return false
 }
 
 func findOrCreateMatchFile(order *list.List, e1 *HostsMapEntry) *list.Element {
